@@ -287,6 +287,8 @@ def make_case(slot, rnd, variant=0, frame=69888, ia=32):
             v = r16(rnd)
             regs[hi], regs[hi + 1] = v >> 8, v & 255
     regs[SP] = r16(rnd)
+    if variant % len(EDGE_W) in (1, 2):
+        regs[A] = 0xFF if variant % len(EDGE_W) == 1 else 0x00      # with the 0xFFFF / 0x3FFF immediates: A:n = 0xFFFF after IN A,(0xFF)
     regs[PC] = pc
     regs[T] = rnd.choice(TS48) if frame == 69888 else rnd.choice(TS128 if frame == 70908 else TS48[:11])
     regs[IFF] = rnd.randrange(2)
